@@ -50,7 +50,7 @@ def make_jobs(ctx, files, root, deep=False):
         for f in files:
             jobs.append(dict(src=f, rel=os.path.relpath(f, root), subs=None, seed=0, times='all',
                              skips=64 if th else 16, addr_stride=1, tok_stride=1))
-    plan = [('directed15', 2 if th else 1), ('directed-neg2', 2 if th else 1), ('first-rows', 6 if th else 2),
+    plan = [('directed15', 2 if th else 1), ('directed-neg2', 2 if th else 1), ('dup-rows', 4 if th else 2), ('first-rows', 6 if th else 2),
             ('layout', 8 if th else 3), ('random', 70 if th else 7)]
     for f in files:
         rel = os.path.relpath(f, root)
@@ -171,6 +171,55 @@ def file_level(ctx, exe, files, root, results):
     ctx.log('file level: %d open/index runs, %d result-set visits, %d cells; in class: %d, outside: %s' % (ncase, visits, cells, len(inclass), outclass))
 
 
+ADR_CORR = 'listingtable.__getitem__(Coq Table.v)-vs-t2listing.listingtable'
+
+
+def addressing_corr(ctx, exe):
+    """the three ways of addressing a cell: the model of listingtable.__getitem__ (Table.v: integer index, column name, row key,
+    reversed key) against the real class, on small tables with repeated row names, repeated column names, names that are both
+    a row and a column, reversed keys present and absent"""
+    import numpy as np
+    import t2listing as T
+    rng = random.Random(ctx.rng.randrange(1 << 30))
+    n = 4000 if ctx.thorough else 600
+    def name(): return ''.join(rng.choice('ABC') for _ in range(rng.choice([1, 2, 2])))
+    def skey(k): return 's' + F.hx(k) if isinstance(k, str) else 't' + '.'.join(F.hx(x) for x in k)
+    cases, impl = [], []
+    dist = {'int': 0, 'column': 0, 'row': 0, 'reversed': 0, 'absent': 0, 'repeated_row_names': 0}
+    for _ in range(n):
+        ncol = rng.randint(1, 4); nrow = rng.randint(0, 5)
+        cols = [name() for _ in range(ncol)]
+        tup = rng.random() < 0.5
+        rows = [tuple(name() for _ in range(rng.choice([2, 2, 1, 3]))) if tup else name() for _ in range(nrow)]
+        if nrow and rng.random() < 0.5: rows[rng.randrange(nrow)] = rng.choice(rows)           # a repeated row name
+        rev = rng.random() < 0.6
+        u = rng.random()
+        if u < 0.35: key = rng.randint(0, nrow)
+        elif u < 0.5: key = rng.choice(cols)
+        elif u < 0.75 and rows: key = rng.choice(rows)
+        elif u < 0.9 and rows: key = rng.choice(rows)[::-1]
+        else: key = tuple(name() for _ in range(2)) if tup else name()
+        tab = T.listingtable(list(cols), list(rows), num_keys=2 if tup else 1, allow_reverse_keys=rev)
+        for i in range(nrow):
+            for j in range(ncol): tab._data[i, j] = 1000 * i + j + 1
+        try: r = tab[key]
+        except Exception as e: out = 'RAISE ' + type(e).__name__
+        else:
+            if r is None: out = 'NONE'
+            elif isinstance(r, dict): out = 'ROW %s %s' % (skey(r['key']), ','.join(str(int(r[c])) for c in cols))
+            else: out = 'COL ' + ','.join(str(int(x)) for x in r)
+        cases.append('adr\t%s\t%s\t%d\t%s' % (','.join(F.hx(c) for c in cols), ','.join(skey(k) for k in rows), 1 if rev else 0,
+                                               'i%d' % key if isinstance(key, int) else skey(key)))
+        impl.append((out, {'cols': cols, 'rows': [list(k) if tup else k for k in rows], 'allow_reverse_keys': rev, 'key': key if not isinstance(key, tuple) else list(key)}))
+        kind = 'int' if isinstance(key, int) else 'column' if key in cols else 'row' if key in rows else 'reversed' if key[::-1] in rows and len(key) > 1 and rev else 'absent'
+        dist[kind] += 1
+        if len(set(rows)) != len(rows): dist['repeated_row_names'] += 1
+    outs = vf.run_driver(exe, cases)
+    for o, (e, case) in zip(outs, impl):
+        if o != e: ctx.disagreement(ADR_CORR, case, o, e)
+    ctx.corr_cases(ADR_CORR, len(cases), **dist)
+
+
 def run_pool(jobs):
     with multiprocessing.Pool(vf.NPROC) as pool:
         return pool.map(W.process, jobs, chunksize=1)
@@ -214,6 +263,7 @@ def run(ctx):
         cnt = correspond(ctx, exe, results)
         ctx.log('correspondence cases:', cnt)
         file_level(ctx, exe, files, root, results)
+        addressing_corr(ctx, exe)
     plain = [r for r in results if not r.get('variant')]
     var = [r for r in results if r.get('variant') and r.get('subs')]
     ctx.oracle_cases('shipped-listings', len(plain), rows=sum(r['stats'].get('rows', 0) for r in plain),
